@@ -52,7 +52,22 @@ def handleDef (fx : Fixes) (toks : List String) : String × Option (String × Di
     | some (.ok D) =>
       let costs := " ".intercalate (D.conn.map toString)
       (s!"ok {D.numRight} {D.numLeft}" ++ (if D.conn.isEmpty then "" else " " ++ costs), some (name, D))
-    | some .err => ("err", none)
+    | some .err =>
+      -- diagnostic: is the rejection due to a connection id outside the connector?
+      let why : Option Bool := do
+        let lex ← hexField rest "LEX"
+        let matrix ← hexField rest "MATRIX"
+        let chardef ← hexField rest "CHAR"
+        let unk ← hexField rest "UNK"
+        match parseLexCsv fx lex, MatrixDef.parse matrix, CharDef.parse chardef, parseLexCsv fx unk with
+        | .ok lrows, .ok M, .ok P, .ok urows =>
+          match lexOfRows lrows, unkOfRows P urows with
+          | some L, some U =>
+            pure (!(paramsInRange (L.entries.map (·.param)) M.numLeft M.numRight) ||
+                  !(paramsInRange (U.map (·.param)) M.numLeft M.numRight))
+          | _, _ => pure false
+        | _, _, _, _ => pure false
+      (if why == some true then "err ids-out-of-range" else "err", none)
     | some .panic => ("panic", none)
   | _ => ("badinput", none)
 
@@ -486,7 +501,20 @@ def evalP2 (D0 : DictM) (c : Case) : String :=
           | none => go ops (i + 1) sent tokd cnts acc
         | _ => go ops (i + 1) sent tokd cnts acc
       | _ => go ops (i + 1) sent tokd cnts acc
+  -- C08 (verify clause): every user lexicon the implementation ACCEPTED has its ids inside the connector
+  let firstFail : Nat := match parts.head? with
+    | some (t :: _) => if t.startsWith "D" then (t.drop 1).toString.toNat?.getD 1000000 else 1000000
+    | _ => 1000000
+  let p8v : Bool := (c.dops.zipIdx.all fun (op, i) =>
+    match op with
+    | .user b =>
+      if i ≥ firstFail then true else
+      match (parseLexCsv Fixes.all b).bind (fun rows => Outcome.ofOption (lexOfRows rows)) with
+      | .ok u => paramsInRange (u.entries.map (·.param)) D0.numLeft D0.numRight
+      | _ => false
+    | _ => true)
   let (p3, p6, p8, p13, projs) := go c.wops 0 [] false ([], []) (true, true, true, true, [])
+  let p8 := p8 && p8v
   let p3a := projs.all fun p => !(p.contains "!astral")
   let projs := projs.map fun p => p.filter (· != "!astral")
   let p12 := match projs with
